@@ -2,7 +2,7 @@
 (* Model-checking wrapper of ContainerRoster.tla: constants of the bounded     *)
 (* configurations, the abstract roster g as a ghost variable, C14 as an        *)
 (* action formula, and the scenario emitter used with `tlc -simulate`.         *)
-EXTENDS ContainerRoster, Json
+EXTENDS ContainerRoster, Json, SequencesExt
 
 VARIABLES g, hist
 mcvars == <<pend, comm, reps, meta, api, ev, g, hist>>
@@ -10,7 +10,8 @@ mcvars == <<pend, comm, reps, meta, api, ev, g, hist>>
 Sig(k, m, f) == [k |-> k, m |-> m, f |-> f]
 
 \* ---- exhaustive: three keys, one container, two vectors, every matrix over the signature alphabet ----
-Q_Batches == {<<1, 2>>, <<3, 1>>, <<2, 0>>}
+\* keys 1 and 2 can be members (key 1 also twice: <<1,1>> with dup, or added twice), key 3 never is
+Q_Batches == {<<1, 2>>, <<1, 1>>, <<2, 0>>}
 Q_RepSeqs == {<<>>, <<1>>, <<2>>, <<1, 1>>}
 Q_SigAlphabet == {Sig(1, "m1", "ok"), Sig(1, "m1", "mal"), Sig(2, "m1", "ok"), Sig(3, "m1", "ok"), Sig(1, "m2", "ok")}
 Q_SignerSets == {{}, {"ALPHA"}}
@@ -27,7 +28,7 @@ L_RepSeqs == {<<>>, <<1>>}
 
 \* ---- simulation ----
 S_Batches == {<<1, 1>>, <<1, 2>>, <<2, 3>>, <<5, 4>>, <<1, 0>>, <<7, 1>>, <<3, 5>>, <<1, 127>>, <<100, 128>>, <<1, 129>>, <<20, 255>>, <<1, 256>>}
-S_RepSeqs == {<<>>, <<1>>, <<2>>, <<3>>, <<4>>, <<1, 1>>, <<2, 1>>, <<1, 2>>, <<2, 2>>, <<1, 2, 3>>, <<4, 1>>, <<1, 1, 1, 1>>}
+S_RepSeqs == {<<>>, <<1>>, <<2>>, <<2>>, <<3>>, <<4>>, <<1, 1>>, <<2, 1>>, <<1, 2>>, <<2, 2>>, <<3, 2>>, <<1, 2, 3>>, <<4, 1>>, <<1, 1, 1, 1>>}
 S_SignerSets == {{}, {"ALPHA"}, {"CMT"}, {"M1"}, {"X"}, {"ALPHA", "X"}}
 
 MCInit == Init /\ g = GInit /\ hist = <<>>
@@ -42,10 +43,31 @@ RandSig(c, i) ==
   LET mem == IF RandomElement(1..5) = 1 THEN NodesOf(c, RandomElement(Vecs)) ELSE NodesOf(c, i)   \* sometimes another vector's members
       kk  == IF mem # <<>> /\ RandomElement(1..6) > 1 THEN mem[RandomElement(1..Len(mem))] ELSE RandomElement(1..K)
   IN  [k |-> kk, m |-> Pick(<<"m1", "m1", "m1", "m1", "m1", "m2">>), f |-> Pick(<<"ok", "ok", "ok", "ok", "mal", "mal", "junk">>)]
+\* every fourth signature repeats the signer of the one before it (as produced, or as its malleated twin)
 RECURSIVE RandVec(_, _, _)
-RandVec(c, i, k) == IF k = 0 THEN <<>> ELSE Append(RandVec(c, i, k - 1), RandSig(c, i))
+RandVec(c, i, k) ==
+  IF k = 0 THEN <<>>
+  ELSE LET prev == RandVec(c, i, k - 1) IN
+       IF prev # <<>> /\ RandomElement(1..4) = 1
+       THEN Append(prev, [prev[Len(prev)] EXCEPT !.f = Pick(<<"ok", "mal">>)])
+       ELSE Append(prev, RandSig(c, i))
+\* a vector aimed at a member that is listed twice in vector i: its signature, the same again or its malleated twin,
+\* and REP_i - 2 (sometimes - 1) other members
+RepKeys(c, i) == LET nd == NodesOf(c, i) IN {nd[p] : p \in {q \in 1..Len(nd) : \E r \in 1..Len(nd) : r # q /\ nd[r] = nd[q]}}
+RECURSIVE TakeSigs(_, _)
+TakeSigs(ks, k) == IF k <= 0 \/ ks = <<>> THEN <<>> ELSE <<[k |-> Head(ks), m |-> "m1", f |-> "ok"]>> \o TakeSigs(Tail(ks), k - 1)
+TwiceVec(c, i) ==
+  LET nd  == NodesOf(c, i)
+      kk  == RandomElement(RepKeys(c, i))
+      rp  == IF i < Len(reps[c]) THEN reps[c][i + 1] ELSE 2
+      oth == SetToSeq({nd[p] : p \in 1..Len(nd)} \ {kk})
+  IN  <<[k |-> kk, m |-> "m1", f |-> "ok"], [k |-> kk, m |-> "m1", f |-> Pick(<<"ok", "mal">>)]>>
+      \o TakeSigs(oth, rp - Pick(<<2, 2, 1>>))
 RECURSIVE RandMat(_, _)
-RandMat(c, k) == IF k = 0 THEN <<>> ELSE Append(RandMat(c, k - 1), RandVec(c, k - 1, RandomElement(0..5)))
+RandMat(c, k) == IF k = 0 THEN <<>>
+                 ELSE Append(RandMat(c, k - 1),
+                             IF RepKeys(c, k - 1) # {} /\ RandomElement(1..2) = 1 THEN TwiceVec(c, k - 1)
+                             ELSE RandVec(c, k - 1, RandomElement(0..5)))
 OneM(c) == {RandMat(c, IF RandomElement(1..5) = 1 THEN RandomElement(0..3) ELSE Len(reps[c]))}
 SimNext == NextOf(One, OneS, OneM) /\ g' = GNext(g, ev') /\ hist' = Append(hist, [ev' EXCEPT !.ntf = <<>>])
 SimSpec == MCInit /\ [][SimNext]_mcvars
